@@ -73,6 +73,28 @@ func vfServerFactory(br vfBridge) (base.ServerFactory, error) {
 
 // vfClientArgs parses a bridge line (cert or legacy form) through the public
 // client factory.
+// vfCloseTwice closes every connection from two goroutines at once, the way the
+// relay's two copiers do at the end of every relayed connection.  Whatever a
+// Close hands back to the process (pools, caches) is then part of the state the
+// following cases of the same process run in.
+func vfCloseTwice(conns ...net.Conn) {
+	var wg sync.WaitGroup
+	for _, c := range conns {
+		if c == nil {
+			continue
+		}
+		for k := 0; k < 2; k++ {
+			wg.Add(1)
+			go func(c net.Conn) {
+				defer wg.Done()
+				defer func() { _ = recover() }()
+				_ = c.Close()
+			}(c)
+		}
+	}
+	wg.Wait()
+}
+
 // vfSharedClientFactory, when set, is used by vfClientArgs instead of a fresh
 // factory per call.
 var vfSharedClientFactory base.ClientFactory
